@@ -14,6 +14,16 @@ CLAIMED = {
    note='Trusted: Coq kernel + vm_compute on the 9-pair table; translator tools/gen_merge.py; hand-written Model/Negotiate.v and Model/Open.v tied by a differential run (all 16 combinations per family x placements x four-octet x legacy through the helper and both BMP derivations). Live-session clause: proved on the model, exercised through the C08 hooks.',
    technique='Coq proof by induction over capability/family lists + finite table check on generated merge arms; differential correspondence',
    design='5/C12'),
+ 'C10': dict(
+   text='Machine-checked proof (Coq 8.16): for all pairs of eligible routes the comparison (chain order generated from the source) equals the RFC 4271 9.1.2.2 / RFC 4456 decision computed by an independent key-vector reference and never panics; with MED comparison disabled it is a strict weak order (irreflexive, transitive, incomparability transitive, Eq compatible) via a then_with-closure lemma; antisymmetry for both strategies; a MED preference cycle is exhibited; try_new refuses exactly the routes lacking ORIGIN/AS_PATH or eBGP without neighbour; hop count = sequence ASNs + sets.',
+   note='Trusted: Coq kernel; translator tools/gen_cmpchain.py (step order generated, step bodies pinned by hash); Model/Select.v projection of PaMap/TiebreakerInfo, tied by a differential run over a route lattice (pairs in both orders, triples, both strategies) plus an independent Python reference and order-law checks on the implementation answers.',
+   technique='Coq proof: lexicographic then_with closure of total preorders; refinement to an independent RFC reference; differential correspondence',
+   design='5/C10'),
+ 'C11': dict(
+   text='Machine-checked proof (Coq 8.16) by fold invariant over arbitrary candidate lists of any item type with a strict weak order and a content equivalence that ties in preference: best is a candidate nothing is preferred over and equals Iterator::min; backup is None iff all candidates share the content of the best; otherwise it differs in content from the best and no candidate differing from the best is preferred over it; the backup preference class is permutation invariant; positions index the returned routes; the generic helper returns the two smallest of pairwise distinct items. Hypotheses discharged for eligible routes under SkipMed.',
+   note='Trusted: Coq kernel; hand-written fold models in Model/Select.v tied by a differential run (all short lists over a 12-route lattice with duplicates and ties, sampled permutations of multisets of 4-6, random lists) plus an oracle checking the statement on the implementation answers. With MED enabled only best-is-min-helper is claimed (no weak order).',
+   technique='Coq proof by induction over the candidate list with a three-part invariant; permutation argument; differential correspondence',
+   design='5/C11'),
 }
 
 PENDING = {}
